@@ -878,6 +878,9 @@ func (c *glCtx) fallthroughEnd(n ast.Node) string {
 }
 
 func (c *glCtx) zero(n ast.Node, goType string) string {
+	if z, ok := c.t.zeros[goType]; ok {
+		return z
+	}
 	switch goType {
 	case "string":
 		return "([] : List Char)"
